@@ -7,6 +7,7 @@ import (
 	"io"
 	"net"
 	"sync"
+	"time"
 
 	"github.com/junegunn/fzf/src/algo"
 	"github.com/junegunn/fzf/src/tui"
@@ -516,4 +517,129 @@ func VerifOptionsDump(useDefaults bool, args []string) (map[string]string, error
 	d["sync"] = b(opts.Sync)
 	d["printsep"] = opts.PrintSep
 	return d, nil
+}
+
+// --- matcher.go ---
+
+func verifItems(lines []string) (*ChunkList, *ChunkCache) {
+	cache := NewChunkCache()
+	var idx int32
+	cl := NewChunkList(cache, func(item *Item, data []byte) bool {
+		item.text = util.ToChars(data)
+		item.text.Index = idx
+		idx++
+		return true
+	})
+	for _, l := range lines {
+		cl.Push([]byte(l))
+	}
+	return cl, cache
+}
+
+func verifMatcher(cache *ChunkCache, eventBox *util.EventBox, sort bool, tac bool) *Matcher {
+	patternCache := make(map[string]*Pattern)
+	builder := func(runes []rune) *Pattern {
+		return BuildPattern(cache, patternCache, true, algo.FuzzyMatchV2, true, CaseSmart, true, true, false, true,
+			nil, Delimiter{}, revision{}, runes, map[int32]struct{}{})
+	}
+	return NewMatcher(cache, builder, sort, tac, eventBox, revision{})
+}
+
+// VerifMatcherPending posts the given requests (query, cancel flag, number of lines visible) to a
+// matcher *before* its loop runs, then lets the loop serve them and returns, for the last result
+// published, the query it answers, the number of items it was computed over and the matched item
+// indices in order.
+func VerifMatcherPending(lines []string, reqs []struct {
+	Query  string
+	Cancel bool
+	Upto   int
+}) (string, int, []int32) {
+	sortCriteria = []criterion{byScore, byLength}
+	eventBox := util.NewEventBox()
+	var m *Matcher
+	var cache *ChunkCache
+	lists := map[int]*ChunkList{}
+	for _, r := range reqs {
+		if _, ok := lists[r.Upto]; !ok {
+			cl, c := verifItems(lines[:r.Upto])
+			lists[r.Upto] = cl
+			if cache == nil {
+				cache = c
+			}
+		}
+	}
+	m = verifMatcher(cache, eventBox, true, false)
+	for _, r := range reqs {
+		snapshot, _, _ := lists[r.Upto].Snapshot(0)
+		m.Reset(snapshot, []rune(r.Query), r.Cancel, r.Upto == len(lines), true, revision{})
+	}
+	go m.Loop()
+	var last *Merger
+	deadline := time.After(5 * time.Second)
+	// collect results until the matcher has been idle for a while
+	for {
+		got := make(chan *Merger, 1)
+		go func() {
+			eventBox.Wait(func(events *util.Events) {
+				for evt, val := range *events {
+					if evt == EvtSearchFin {
+						got <- val.(*Merger)
+					}
+				}
+				events.Clear()
+			})
+		}()
+		select {
+		case mg := <-got:
+			last = mg
+			continue
+		case <-time.After(150 * time.Millisecond):
+		case <-deadline:
+		}
+		break
+	}
+	m.Stop()
+	eventBox.Set(EvtQuit, nil) // release the waiter
+	if last == nil {
+		return "", -1, nil
+	}
+	out := []int32{}
+	for i := 0; i < last.Length(); i++ {
+		out = append(out, last.Get(i).item.Index())
+	}
+	q := ""
+	if last.pattern != nil {
+		q = last.pattern.AsString()
+	}
+	return q, last.count, out
+}
+
+// VerifScan runs Matcher.scan over the lines, optionally with a pending reset (cancellation)
+// posted before the scan starts or from a concurrent goroutine; returns cancelled?, and the matched
+// item indices in order when a merger was returned.
+func VerifScan(lines []string, query string, sort bool, tac bool, partitions int, cancel int) (bool, bool, []int32) {
+	sortCriteria = []criterion{byScore, byLength}
+	cl, cache := verifItems(lines)
+	m := verifMatcher(cache, util.NewEventBox(), sort, tac)
+	if partitions > 0 {
+		m.partitions = partitions
+		m.slab = make([]*util.Slab, partitions)
+	}
+	snapshot, _, _ := cl.Snapshot(0)
+	pattern := m.patternBuilder([]rune(query))
+	switch cancel {
+	case 1:
+		m.reqBox.Set(reqReset, MatchRequest{})
+	case 2:
+		go func() { m.reqBox.Set(reqReset, MatchRequest{}) }()
+	}
+	merger, cancelled := m.scan(MatchRequest{chunks: snapshot, pattern: pattern, final: true, sort: sort})
+	if merger == nil {
+		return cancelled, false, nil
+	}
+	out := []int32{}
+	for i := 0; i < merger.Length(); i++ {
+		out = append(out, merger.Get(i).item.Index())
+	}
+	return cancelled, true, out
 }
